@@ -1877,3 +1877,380 @@ func ruleScanLimit(pkgs []string) func(c *Ctx, r *Rep, tier string) {
 		}
 	}
 }
+
+// ---- CIGAR-EVERY-OP ------------------------------------------------------------
+//
+// Every operation of the text comes out as at least one operation of the value,
+// a zero-length one included ("5M0I5M" is SAM text the library's own writer
+// produces for a record that holds such an operation; BAM keeps it). Decided in
+// sam.ParseCigar as a must-pass-through: from every call that parses a length
+// (its result flows into the length argument of NewCigarOp) every path to the
+// next such call, or to a return without error, passes a NewCigarOp. A splitting
+// loop written `for n > 0` emits nothing for length 0 (eleventh-round seed
+// C06-l, which CIGAR-SPLIT could only report as "the loop I read is gone").
+func ruleCigarEveryOp(c *Ctx, r *Rep, tier string) {
+	rule := "CIGAR-EVERY-OP"
+	fn := c.Func("sam", "ParseCigar")
+	isEmit := func(ins ssa.Instruction) bool {
+		call, ok := ins.(*ssa.Call)
+		if !ok {
+			return false
+		}
+		g := staticCallee(&call.Call)
+		return g != nil && g.Name() == "NewCigarOp"
+	}
+	lenFlow := map[ssa.Value]bool{}
+	var back func(v ssa.Value, depth int)
+	back = func(v ssa.Value, depth int) {
+		if v == nil || lenFlow[v] || depth > 12 {
+			return
+		}
+		lenFlow[v] = true
+		switch x := v.(type) {
+		case *ssa.Phi:
+			for _, e := range x.Edges {
+				back(e, depth+1)
+			}
+		case *ssa.Convert:
+			back(x.X, depth+1)
+		case *ssa.BinOp:
+			if x.Op == token.SUB || x.Op == token.ADD {
+				back(x.X, depth+1)
+			}
+		case *ssa.Extract:
+			back(x.Tuple, depth+1)
+		case *ssa.Call:
+			if isEmit(x) {
+				return
+			}
+			for _, a := range x.Call.Args {
+				if _, isK := a.(*ssa.Const); !isK && len(x.Call.Args) == 2 {
+					back(a, depth+1)
+				}
+			}
+		}
+	}
+	allInstrs(fn, func(ins ssa.Instruction) {
+		if isEmit(ins) {
+			back(ins.(*ssa.Call).Call.Args[1], 0)
+		}
+	})
+	isParse := func(ins ssa.Instruction) bool {
+		call, ok := ins.(*ssa.Call)
+		return ok && lenFlow[call] && !isEmit(ins) && len(call.Call.Args) == 1
+	}
+	k := 0
+	allInstrs(fn, func(ins ssa.Instruction) {
+		if !isParse(ins) {
+			return
+		}
+		k++
+		r.Instance(rule, 1)
+		key := fmt.Sprintf("sam.ParseCigar#emitted~%d", k)
+		target := func(x ssa.Instruction) bool {
+			if isParse(x) {
+				return true
+			}
+			ret, ok := x.(*ssa.Return)
+			return ok && len(ret.Results) == 2 && isNilConst(retValue(ret, 1))
+		}
+		at, ok := mustPass(locOf(ins), target, isEmit, nil)
+		why := ""
+		if !ok {
+			why = "after a length has been parsed the next operation can be reached, or the value returned, without an operation having been made for it"
+			if at != nil {
+				why += " (" + c.Pos(at.Pos()) + ")"
+			}
+			why += ": an operation of length 0 – valid text, kept by BAM – disappears from the value, and the record formats to another line"
+		}
+		r.Check(why == "", rule, key, c.Pos(ins.Pos()), "every parsed operation is emitted at least once", why)
+	})
+	if k == 0 {
+		r.Instance(rule, 1)
+		r.Fail(rule, "sam.ParseCigar#length-parse", c.Pos(fn.Pos()), "no call whose result becomes an operation's length: undecided")
+	}
+}
+
+// ---- DEPTH-GUARD ---------------------------------------------------------------
+//
+// A CSI index numbers its bins in 32 bits: with more than nine levels below the
+// root the level offsets of reg2bin wrap while reg2bins counts on, and a record
+// is filed under a bin no query enumerates (csi.New(1, 11), Add [100,101),
+// Chunks(0, 100, 101): nothing; depth 10 writes a statistics bin number that is
+// a real bin's). ReadFrom refuses such a depth (SHIFT-FITS); New has no way to.
+// Records enter an index through Add only, so: every call of the bin function in
+// csi.(*Index).Add is behind a test of the index's depth against a constant,
+// on the side where the depth is at most that constant, and the constant is at
+// most the largest depth whose numbers fit (31/3 − 1 = 9).
+func ruleDepthGuard(c *Ctx, r *Rep, tier string) {
+	rule := "DEPTH-GUARD"
+	fn := c.Func("csi", "(*Index).Add")
+	depthF := c.Field("csi", "Index", "depth")
+	binFn := c.Func("csi", "reg2bin")
+	k := 0
+	allInstrs(fn, func(ins ssa.Instruction) {
+		call, ok := ins.(*ssa.Call)
+		if !ok || staticCallee(&call.Call) != binFn {
+			return
+		}
+		k++
+		r.Instance(rule, 1)
+		key := fmt.Sprintf("csi.(*Index).Add#depth-bounded~%d", k)
+		okb := false
+		for _, b := range fn.Blocks {
+			ifi := ifOf(b)
+			if ifi == nil {
+				continue
+			}
+			bo, ok := ifi.Cond.(*ssa.BinOp)
+			if !ok {
+				continue
+			}
+			f, _ := loadedField(stripConv(bo.X))
+			lim, isK := constInt(bo.Y)
+			if f != depthF || !isK {
+				continue
+			}
+			// the edge on which depth ≤ 9
+			small := -1
+			switch {
+			case bo.Op == token.GTR && lim <= 9:
+				small = 1
+			case bo.Op == token.GEQ && lim <= 10:
+				small = 1
+			case bo.Op == token.LEQ && lim <= 9:
+				small = 0
+			case bo.Op == token.LSS && lim <= 10:
+				small = 0
+			}
+			if small >= 0 && dominatedByEdge(fn, b, small, call.Block()) {
+				okb = true
+			}
+		}
+		r.Check(okb, rule, key, c.Pos(call.Pos()), "behind a test that the depth is at most 9", "the bin of a record is computed without the index's depth having been found at most 9: csi.New takes any depth, and with ten levels or more the 32-bit bin arithmetic wraps – the record is filed where no query looks (New(1, 11), Add [100,101), Chunks(0,100,101) returns nothing) and a written index is one its own reader refuses")
+	})
+	if k == 0 {
+		r.Instance(rule, 1)
+		r.Fail(rule, "csi.(*Index).Add#bin-call", c.Pos(fn.Pos()), "no call of reg2bin in Add: the rule's anchor moved (undecided)")
+	}
+}
+
+// ---- BLOCK-HOLDERS -------------------------------------------------------------
+//
+// OWN-1/OWN-2/OWN-3 decide that a Block has one owner at a time – the Reader
+// (Reader.current), a decompressor (decompressor.blk) or a cache (its table) –
+// by following every hand-over between those holders. They say nothing about a
+// holder they do not know. This rule closes the list: in bgzf and bgzf/cache a
+// value of type Block (or *block) is stored only into the fields of the table
+// below, put only into the maps of the table, and never sent on a channel or
+// put into a slice. A new holder (twelfth-round seed C03-m kept "spare" blocks
+// on a channel of the Reader, where a block could sit while it was still the
+// current one) is reported as outside the ownership model: undecided, which
+// counts as failed.
+var blockHolders = map[string]string{
+	"bgzf.Reader.current":       "the Reader's block (OWN-1)",
+	"bgzf.decompressor.blk":     "the block a decompressor fills; handed over by wait()/using() (OWN-1, POOL-BARE)",
+	"cache.node.b":              "LRU/FIFO entries (OWN-2, KEY-BASE)",
+	"cache.Random.table":        "Random's entries (OWN-2, KEY-BASE)",
+	"cache.LRU.table":           "LRU's index of nodes (holds nodes, listed for the map update)",
+	"cache.FIFO.table":          "FIFO's index of nodes",
+	"bgzf.Tx.r":                 "not a block: a Reader",
+	"cache.StatsRecorder.Cache": "the wrapped cache, not a block",
+}
+
+func ruleBlockHolders(c *Ctx, r *Rep, tier string) {
+	rule := "BLOCK-HOLDERS"
+	blockI := c.Named("bgzf", "Block")
+	blockS := c.Named("bgzf", "block")
+	isBlock := func(t types.Type) bool {
+		if types.Identical(t, blockI) {
+			return true
+		}
+		if p, ok := t.(*types.Pointer); ok && types.Identical(p.Elem(), blockS) {
+			return true
+		}
+		return false
+	}
+	seen := map[string]bool{}
+	report := func(ok bool, key, pos, how, why string) {
+		if seen[key] {
+			if !ok {
+				r.Check(false, rule, key, pos, how, why)
+			}
+			return
+		}
+		seen[key] = true
+		r.Instance(rule, 1)
+		r.Check(ok, rule, key, pos, how, why)
+	}
+	for _, pk := range []string{"bgzf", "bgzf/cache"} {
+		for _, fn := range c.FuncsIn(pk) {
+			fn := fn
+			allInstrs(fn, func(ins ssa.Instruction) {
+				switch x := ins.(type) {
+				case *ssa.Store:
+					if !isBlock(x.Val.Type()) {
+						return
+					}
+					switch a := x.Addr.(type) {
+					case *ssa.FieldAddr:
+						fv := fieldVarOfAddr(a)
+						owner := c.ownerOfField(fv)
+						name := owner + "." + fv.Name()
+						why, ok := blockHolders[name]
+						report(ok, "holder:"+name, c.Pos(x.Pos()), why, "a Block is stored into "+name+", which is not one of the holders the ownership rules follow (Reader.current, decompressor.blk, the caches' entries): whether a block can sit there while it is current, cached or being filled is not decided")
+					case *ssa.IndexAddr:
+						report(false, "holder:"+c.FnName(fn)+"#element", c.Pos(x.Pos()), "", "a Block is stored into an element of a slice or array: a holder the ownership rules do not follow")
+					}
+				case *ssa.MapUpdate:
+					if !isBlock(x.Value.Type()) {
+						return
+					}
+					f, _ := loadedField(x.Map)
+					name := "?"
+					if f != nil {
+						name = c.ownerOfField(f) + "." + f.Name()
+					}
+					why, ok := blockHolders[name]
+					report(ok, "holder:"+name, c.Pos(x.Pos()), why, "a Block is put into the map "+name+", which is not one of the holders the ownership rules follow")
+				case *ssa.Select:
+					for _, stt := range x.States {
+						if stt.Dir != types.SendOnly || stt.Send == nil || !isBlock(stt.Send.Type()) {
+							continue
+						}
+						f, _ := loadedField(stt.Chan)
+						name := "?"
+						if f != nil {
+							name = c.ownerOfField(f) + "." + f.Name()
+						}
+						report(false, "holder:chan "+name, c.Pos(x.Pos()), "", "a Block is sent on the channel "+name+" (in a select): a holder the ownership rules do not follow – a block can wait there while it is still the Reader's current block or a cache's entry, and whoever receives it overwrites it")
+					}
+				case *ssa.MakeChan:
+					if ch, ok := x.Type().Underlying().(*types.Chan); ok && isBlock(ch.Elem()) {
+						report(false, "holder:"+c.FnName(fn)+"#chan-of-blocks", c.Pos(x.Pos()), "", "a channel of Blocks is made: a holder the ownership rules do not follow")
+					}
+				case *ssa.Send:
+					if !isBlock(x.X.Type()) {
+						return
+					}
+					f, _ := loadedField(x.Chan)
+					name := "?"
+					if f != nil {
+						name = c.ownerOfField(f) + "." + f.Name()
+					}
+					report(false, "holder:chan "+name, c.Pos(x.Pos()), "", "a Block is sent on the channel "+name+": a holder the ownership rules do not follow – a block can wait there while it is still the Reader's current block or a cache's entry, and whoever receives it overwrites it")
+				}
+			})
+		}
+	}
+}
+
+// ---- READ-FILLS ----------------------------------------------------------------
+//
+// "Every read … is short or empty only at the end of the data (or, in Blocked
+// mode, of a block) where it reports io.EOF." In (*Reader).Read the return that
+// hands back n with the recorded error is reached from the fill loop; each way
+// there is justified by one of two facts, established on a branch edge that
+// dominates it: the buffer is full (n compared with len(p)), or the recorded
+// error was found non-nil. A way out of the loop with neither – twelfth-round
+// seed C02-m left it "when the read-ahead has no block ready" – is a short read
+// in mid-data without io.EOF.
+func ruleReadFills(c *Ctx, r *Rep, tier string) {
+	rule := "READ-FILLS"
+	fn := c.Func("bgzf", "(*Reader).Read")
+	errF := c.Field("bgzf", "Reader", "err")
+	key := "bgzf.(*Reader).Read#short-only-with-error"
+	r.Instance(rule, 1)
+	if len(fn.Params) < 2 {
+		r.Fail(rule, key, c.Pos(fn.Pos()), "no buffer parameter: undecided")
+		return
+	}
+	p := fn.Params[1]
+	isLenP := func(v ssa.Value) bool {
+		a, ok := isLenCall(stripConv(v))
+		return ok && a == ssa.Value(p)
+	}
+	// the return of (n, recorded error)
+	var ret *ssa.Return
+	allInstrs(fn, func(ins ssa.Instruction) {
+		if rt, ok := ins.(*ssa.Return); ok && len(rt.Results) == 2 {
+			if f, _ := loadedField(retValue(rt, 1)); f == errF {
+				if _, isK := retValue(rt, 0).(*ssa.Const); !isK {
+					ret = rt
+				}
+			}
+		}
+	})
+	if ret == nil {
+		r.Fail(rule, key, c.Pos(fn.Pos()), "no return of (n, recorded error) found: undecided")
+		return
+	}
+	// justified edges
+	type edge struct {
+		b *ssa.BasicBlock
+		k int
+	}
+	var good []edge
+	for _, b := range fn.Blocks {
+		ifi := ifOf(b)
+		if ifi == nil || b.Succs[0] == b.Succs[1] {
+			continue
+		}
+		bo, ok := ifi.Cond.(*ssa.BinOp)
+		if !ok {
+			continue
+		}
+		switch {
+		case isLenP(bo.Y) && !isLenP(bo.X):
+			// n OP len(p): the side on which n ≥ len(p)
+			switch bo.Op {
+			case token.LSS:
+				good = append(good, edge{b, 1})
+			case token.GEQ, token.EQL:
+				good = append(good, edge{b, 0})
+			case token.NEQ:
+				good = append(good, edge{b, 1})
+			}
+		case isLenP(bo.X) && !isLenP(bo.Y):
+			switch bo.Op {
+			case token.GTR:
+				good = append(good, edge{b, 1})
+			case token.LEQ, token.EQL:
+				good = append(good, edge{b, 0})
+			case token.NEQ:
+				good = append(good, edge{b, 1})
+			}
+		default:
+			// recorded error OP nil
+			f, _ := loadedField(bo.X)
+			if f == errF && isNilConst(bo.Y) {
+				if bo.Op == token.NEQ {
+					good = append(good, edge{b, 0})
+				} else if bo.Op == token.EQL {
+					good = append(good, edge{b, 1})
+				}
+			}
+		}
+	}
+	rb := ret.Block()
+	why := ""
+	for _, pred := range rb.Preds {
+		ok := false
+		for _, e := range good {
+			if dominatedByEdge(fn, e.b, e.k, pred) || (pred == e.b && e.b.Succs[e.k] == rb && e.b.Succs[1-e.k] != rb) {
+				ok = true
+			}
+		}
+		if !ok {
+			at := "-"
+			if len(pred.Instrs) > 0 {
+				at = c.Pos(pred.Instrs[len(pred.Instrs)-1].Pos())
+				for i := len(pred.Instrs) - 1; i >= 0 && at == "-"; i-- {
+					at = c.Pos(pred.Instrs[i].Pos())
+				}
+			}
+			why = "Read can reach its return of (n, recorded error) from " + at + " where neither the buffer was found full nor the recorded error non-nil: a read that crosses a block end in the middle of the data comes back short with a nil error"
+		}
+	}
+	r.Check(why == "", rule, key, c.Pos(ret.Pos()), fmt.Sprintf("each of the %d ways to the final return has the buffer full or an error recorded", len(rb.Preds)), why)
+}
